@@ -1149,6 +1149,12 @@ int htp_connp_req_data(htp_connp_t *connp, const htp_time_t *timestamp, const vo
                 }
             }
 
+            // The current chunk will not be valid once we return, and no
+            // further request data will be accepted: drop the data receiver so
+            // that a later finalization (e.g., from the response side) does not
+            // hand the unsent remainder of this chunk to a callback.
+            connp->in_data_receiver_hook = NULL;
+
             // Check for the stop signal.
             if (rc == HTP_STOP) {
                 #ifdef HTP_DEBUG
